@@ -44,7 +44,60 @@ def sni_dist(rs):
         d["rej_missing"] += o == "rej missing"
     return d
 
+PREFACE_HEX = "505249202a20485454502f322e300d0a0d0a534d0d0a0d0a"
+
+def _sniff_stream(r):
+    t = r["input"].split()
+    evs = t[1:t.index(";")] if ";" in t else t[1:]
+    data = [e[1:] for e in evs if e.startswith("d")]
+    return evs, data
+
+def sniff_nontrivial(r):
+    # shares a prefix with the preface and the first 24 bytes arrive in >= 2 reads
+    evs, data = _sniff_stream(r)
+    s = "".join(data)
+    if not s or s[:2] != PREFACE_HEX[:2]:
+        return False
+    first = len(data[0]) // 2 if data else 0
+    return first < 24 and len(data) >= 2
+
+def sniff_dist(rs):
+    d = {"h2": 0, "h1": 0, "err": 0, "full_preface": 0, "preface_fragmented": 0, "strict_prefix_then_end": 0,
+         "one_byte_chunks": 0, "with_pending": 0, "ends_in_error": 0, "zero_cap_reads": 0}
+    for r in rs:
+        evs, data = _sniff_stream(r)
+        s = "".join(data)
+        d[r["obs"].split()[0]] = d.get(r["obs"].split()[0], 0) + 1
+        fp = s.startswith(PREFACE_HEX)
+        d["full_preface"] += fp
+        d["preface_fragmented"] += fp and len(data) >= 2 and len(data[0]) < 48
+        d["strict_prefix_then_end"] += (not fp) and PREFACE_HEX.startswith(s) and len(s) > 0
+        d["one_byte_chunks"] += len(data) >= 3 and all(len(x) == 2 for x in data)
+        d["with_pending"] += "p" in evs
+        d["ends_in_error"] += "x" in evs
+        t = r["input"].split()
+        d["zero_cap_reads"] += ";" in t and "0" in t[t.index(";"):]
+    return d
+
 PROPS = {
+    "C08": {
+        "props_module": "HdModel.Props.C08",
+        "theorems": ["Hd.Sniff.C08_detect", "Hd.Sniff.C08_transparent", "Hd.Sniff.C08_run_spec",
+                     "Hd.Sniff.C08_pending_irrelevant", "Hd.Sniff.C18_rewind_fifo", "Hd.Sniff.rewindRead_prefix_first",
+                     "Hd.Sniff.detect_gen", "Hd.Sniff.transparent_gen"],
+        "streams": [
+            {"name": "sniff", "quick": 5000, "thorough": 200000, "sep": None, "head": 1, "unit": 1,
+             "exhaustive": "sniff-exhaustive", "nontrivial": sniff_nontrivial, "distribution": sniff_dist},
+        ],
+        "rule": "byte streams (valid HTTP/1 requests, preface+frames, strict prefixes of the preface + EOF, prefix + diverging byte, "
+                "corrupted preface, request lines sharing a prefix with the preface, random bytes) x chunkings (whole, 1 byte, tiny, "
+                "arbitrary) x pendings x EOF/error endings x read capacities {0,1,2,3,5,8,24,64} through the real ReadVersion (hook) "
+                "and Rewind; thorough adds all <=3-cut compositions of the first 32 bytes of 4 key streams. non-trivial = stream "
+                "starts like the preface and its first 24 bytes arrive in >= 2 reads",
+        "assumes": ["hyper's ReadBuf/ReadBufCursor bookkeeping (put_slice/advance) - exercised but not modelled",
+                    "the protocol handlers (hyper http1/http2) are handed the Rewind stream unchanged: UpgradableConnection::poll is not modelled beyond ReadVersion+Rewind",
+                    "a zero-length read is end of stream"],
+    },
     "C20": {
         "props_module": "HdModel.Props.C20",
         "theorems": ["Hd.Sni.C20_decision", "Hd.Sni.C20_forward_only_if", "Hd.Sni.C20_match_forwarded",
